@@ -32,6 +32,9 @@ import (
 // Tag body can be up to maxTagLength (96) chars long.
 var prefixedTagRegexp = regexp.MustCompile(`^([a-z]\w{1,15}):[-_+.!?#@\pL\pN]{1,96}$`)
 
+// Namespace prefix of a tag: the prefix of prefixedTagRegexp followed by a colon, whatever the body is.
+var tagPrefixRegexp = regexp.MustCompile(`^([a-z]\w{1,15}):`)
+
 // Generic tag: the same restrictions as tag body.
 var tagRegexp = regexp.MustCompile(`^[-_+.!?#@\pL\pN]{1,96}$`)
 
@@ -410,7 +413,7 @@ func filterRestrictedTags(tags []string, namespaces map[string]bool) []string {
 	}
 
 	for _, s := range tags {
-		parts := prefixedTagRegexp.FindStringSubmatch(s)
+		parts := tagPrefixRegexp.FindStringSubmatch(s)
 
 		if len(parts) < 2 {
 			continue
